@@ -563,7 +563,7 @@ func c13Client(r *Run, m *ServerModel, ev *sizeEval, needW, needR int64) {
 		return true
 	})
 	nStores := 0
-	for _, fa := range db.Fields {
+	for _, fa := range m.fields() {
 		if fa.Root != nc || !fa.Write || fa.Key != "p9.Client.payloadSize" {
 			continue
 		}
@@ -623,7 +623,7 @@ func c13Client(r *Run, m *ServerModel, ev *sizeEval, needW, needR int64) {
 	}
 	r.check(nStores >= 2, "r4", "NewClient: payload size recomputed after negotiation", nc.Decl.Pos(), fmt.Sprintf("%d stores to c.payloadSize", nStores), fmt.Sprintf("%d store(s) to c.payloadSize: it is not recomputed from the adopted msize", nStores))
 	// adoption store guarded against underflow
-	for _, fa := range db.Fields {
+	for _, fa := range m.fields() {
 		if fa.Root != nc || !fa.Write || fa.Key != "p9.Client.messageSize" {
 			continue
 		}
@@ -640,7 +640,7 @@ func c13Client(r *Run, m *ServerModel, ev *sizeEval, needW, needR int64) {
 	// WithMessageSize
 	if wm := r.mustFunc("r4", "p9", "WithMessageSize"); wm != nil {
 		okG := false
-		for _, fa := range db.Fields {
+		for _, fa := range m.fields() {
 			if fa.Root == wm && fa.Write && fa.Key == "p9.Client.messageSize" {
 				for _, p := range fa.St.Paths {
 					_ = p
